@@ -4,6 +4,8 @@ package main
 import (
 	"fmt"
 	"math"
+	"math/bits"
+	"sort"
 	"strings"
 	"sync"
 
@@ -81,6 +83,49 @@ type op struct {
 func (o op) String() string { return fmt.Sprintf("%s(%d,%d,%d,%d)", o.name, o.a, o.b, o.c, o.d) }
 
 // ops enumerates every operation for a shape, coordinates from -1 to w / h.
+// farCoords: coordinates far outside a w x h array, including those whose product with the width or
+// the height wraps around 2^64 into the range of real cells (y with y*w = t mod 2^64 for a valid flat
+// offset t): every one of them must be rejected like -1 or w.
+func farCoords(w, h int) []int {
+	set := map[int]bool{}
+	for _, c := range []int{math.MinInt, math.MinInt + 1, -(1 << 62), -(1 << 32), -(1 << 31), -2, 1 << 31, 1<<31 + 1, 1 << 32, 1<<32 + 1, 1 << 62, 1<<62 + 1, math.MaxInt - 1, math.MaxInt} {
+		set[c] = true
+	}
+	for _, dim := range []int{w, h} {
+		if dim <= 1 {
+			continue
+		}
+		for t := 0; t <= w*h; t++ {
+			for k := uint64(1); k < uint64(dim); k++ {
+				// y = (t + k*2^64) / dim when that is an integer: y*dim wraps to t
+				hi, lo := k, uint64(t) // the 128-bit number k*2^64 + t
+				q, rem := bits.Div64(hi, lo, uint64(dim))
+				if rem == 0 && q < 1<<63 {
+					set[int(q)] = true
+				}
+			}
+		}
+	}
+	var out []int
+	for c := range set {
+		if c < 0 || (c >= w && c >= h) {
+			out = append(out, c)
+		}
+	}
+	sort.Ints(out)
+	return out
+}
+
+func farOps(w, h int) []op {
+	var out []op
+	for _, c := range farCoords(w, h) {
+		out = append(out, op{"Set", c, 0, 0, 0}, op{"Set", 0, c, 0, 0}, op{"Get", c, 0, 0, 0}, op{"Get", 0, c, 0, 0}, op{"Set", c, c, 0, 0},
+			op{"Row", c, 0, 0, 0}, op{"RowSpan", 0, w - 1, c, 0}, op{"RowSpan", 0, 0, c, 0}, op{"RowSpan", c, c, 0, 0}, op{"RowSpan", 0, c, 0, 0},
+			op{"Fill", 0, 0, c, 0}, op{"Fill", 0, 0, 0, c}, op{"Fill", c, 0, 0, 0}, op{"Fill", 0, c, 0, 0})
+	}
+	return out
+}
+
 func ops(w, h int) []op {
 	var out []op
 	for y := -1; y <= h; y++ {
@@ -104,7 +149,7 @@ func ops(w, h int) []op {
 		}
 	}
 	out = append(out, op{"Clone", 0, 0, 0, 0})
-	return out
+	return append(out, farOps(w, h)...)
 }
 
 // apply runs one op on the array and the model; returns a failure message or "".
@@ -651,5 +696,5 @@ func main() {
 		}
 		return fmt.Errorf("e%d", i)
 	}, func(a, b error) bool { return a == b })
-	e.Finish(fmt.Sprintf("every shape w,h in 0..%d from the all-cells-distinct labelling: every Set/Get with x in -1..w, y in -1..h; Row(y) and RowSpan(x1<=x2,y) incl. out of range with write-through both ways; Fill for every pair of corners in either order incl. one coordinate outside; Clone; String; arrays of more than 2^25 byte cells in wide, tall and lop-sided shapes (full and partial Fill, corner Sets, Clone, every cell read back); the same model over 12 element types (strings, floats incl. NaN and -0, structs, pointers to structs/slices/maps/arrays, interfaces, slices, maps, Stringers, errors) on shapes up to 3x3 with String rendered cell by cell; every ordered pair of operations for shapes up to %dx%d; New2DFilled; New2DFromJagged for every row count 0..h+1 and row lengths 0..w+1; oracle: cell-grid model with frame condition (exactly the intended cells change); non-trivial = non-square shape", maxDim, pairDim, pairDim))
+	e.Finish(fmt.Sprintf("every shape w,h in 0..%d from the all-cells-distinct labelling: every Set/Get with x in -1..w, y in -1..h and with coordinates far outside (extremes of int, and every coordinate whose product with the width or height wraps around 2^64 onto a real cell); Row(y) and RowSpan(x1<=x2,y) incl. out of range with write-through both ways; Fill for every pair of corners in either order incl. one coordinate outside; Clone; String; arrays of more than 2^25 byte cells in wide, tall and lop-sided shapes (full and partial Fill, corner Sets, Clone, every cell read back); the same model over 12 element types (strings, floats incl. NaN and -0, structs, pointers to structs/slices/maps/arrays, interfaces, slices, maps, Stringers, errors) on shapes up to 3x3 with String rendered cell by cell; every ordered pair of operations for shapes up to %dx%d; New2DFilled; New2DFromJagged for every row count 0..h+1 and row lengths 0..w+1; oracle: cell-grid model with frame condition (exactly the intended cells change); non-trivial = non-square shape", maxDim, pairDim, pairDim))
 }
